@@ -63,13 +63,13 @@ theorem foldings_eq (chal cs : List F) :
     simp only [foldings, List.length_cons, List.range_succ_eq_map, List.map_cons, List.map_map, ih]
     congr 1
 
-/-- **`commit_folding`** returns the time-efficient commitments of the explicitly folded
-polynomials, for every length and depth and every key at least as long as the input. -/
-theorem commitFolding_eq (ck : CK F) (cs chal : List F) (h : cs.length ≤ ck.powersOfG.length) :
+/-- **`commit_folding`** returns the MSMs of the explicitly folded polynomials with the key, for every
+length and depth and every key at least as long as the input. -/
+theorem commitFolding_eq_dot (ck : CK F) (cs chal : List F) (h : cs.length ≤ ck.powersOfG.length) :
     commitFolding (CKS.ofTime ck) cs.reverse chal
-      = .ok ((foldings cs chal).map (Time.commit ck)) := by
+      = .ok ((foldings cs chal).map (dot ck.powersOfG)) := by
   unfold commitFolding
-  rw [mapExcept_ok _ (fun i => Time.commit ck (foldAll cs (chal.take i)))]
+  rw [mapExcept_ok _ (fun i => dot ck.powersOfG (foldAll cs (chal.take i)))]
   · rw [foldings_eq]
     simp [List.map_map, Function.comp_def]
   · intro i hi
@@ -83,7 +83,19 @@ theorem commitFolding_eq (ck : CK F) (cs chal : List F) (h : cs.length ≤ ck.po
     rw [← hlen, if_neg (by omega), hlev, reverse_drop_sub _ _ (by omega),
       msmStrict_eq_dot _ _ _ (by simp [List.length_take]; omega),
       dot_reverse _ _ (by simp [List.length_take]; omega), dot_take _ _ _ (Nat.le_refl _)]
-    simp [Time.commit]
+    simp
+
+/-- … which are the time-efficient commitments (`batch_commit`) of the explicitly folded polynomials:
+no folding is longer than the input, so the assertion of `CommitterKey::commit` holds for each. -/
+theorem commitFolding_eq (ck : CK F) (cs chal : List F) (h : cs.length ≤ ck.powersOfG.length) :
+    ∃ cms, commitFolding (CKS.ofTime ck) cs.reverse chal = .ok cms
+      ∧ Time.batchCommit ck (foldings cs chal) = .ok cms := by
+  refine ⟨_, commitFolding_eq_dot ck cs chal h, time_batchCommit_eq ck _ ?_⟩
+  intro p hp
+  rw [foldings_eq] at hp
+  obtain ⟨j, _, rfl⟩ := List.mem_map.1 hp
+  have hle := foldAll_length_le (chal.take (j + 1)) cs
+  omega
 
 /-! ### `open_folding` -/
 
